@@ -98,6 +98,13 @@ fn child_body(case: &Case, expected_sig: &str, presented: &str, mode: Mode, log_
         } else {
             log::LevelFilter::Off
         });
+        // Work on a copy made here, in the child: every child starts from the same heap state, so the copy lives at
+        // the same addresses whichever probe this is. (The parent's cases sit at different addresses; an unoptimised
+        // build with debug assertions compares source and destination addresses in its copy checks, which made
+        // traces depend on the probe index.)
+        let case: &Case = &case.clone();
+        let presented: &str = &presented.to_string();
+        let expected_sig: &str = &expected_sig.to_string();
         let req = build_request(&case.wire);
         let mut prov = Prov::new(case.script.clone());
         let a = presented.as_bytes().to_vec();
@@ -158,6 +165,11 @@ fn trace_one(case: &Case, expected_sig: &str, presented: &str, mode: Mode, log_t
         let mut hash: u64 = 0xcbf29ce484222325;
         let mut ok = 0u64;
         let limit: u64 = 20_000_000;
+        // diagnostics: VERIF_C07_DUMP=<dir> writes every instruction address of every trace (one file per probe child)
+        let mut dump: Option<std::io::BufWriter<std::fs::File>> = match std::env::var("VERIF_C07_DUMP") {
+            Ok(d) => std::fs::File::create(format!("{}/trace-{}-{}.bin", d, presented, pid)).ok().map(std::io::BufWriter::new),
+            Err(_) => None,
+        };
         loop {
             if libc::ptrace(libc::PTRACE_SINGLESTEP, pid, 0, 0) != 0 {
                 break;
@@ -185,6 +197,9 @@ fn trace_one(case: &Case, expected_sig: &str, presented: &str, mode: Mode, log_t
             }
             let rip = libc::ptrace(libc::PTRACE_PEEKUSER, pid, RIP_OFFSET, 0) as u64;
             steps += 1;
+            if let Some(f) = dump.as_mut() {
+                let _ = f.write_all(&rip.to_le_bytes());
+            }
             hash ^= rip;
             hash = hash.wrapping_mul(0x100000001b3);
             if steps > limit {
@@ -640,9 +655,18 @@ fn main() {
         // used by the release-profile run to repeat a subset on another build profile
         let seed: u64 = args.get(2).and_then(|s| s.parse().ok()).unwrap_or(1);
         let profile = args.get(3).cloned().unwrap_or_else(|| "other".into());
+        let light = args.get(4).map(|s| s == "light").unwrap_or(false);
         let reqs = make_requests(seed, 1);
-        let probes = make_probes(seed, &reqs, &[0, 1, 15, 31, 32, 47, 62, 63], 2);
-        let traces = trace_all(seed, &reqs, &probes, 8);
+        let mut probes = if light {
+            make_probes(seed, &reqs, &[0, 1, 31, 32, 63], 3)
+        } else {
+            make_probes(seed, &reqs, &[0, 1, 15, 31, 32, 47, 62, 63], 2)
+        };
+        if light {
+            // unoptimised builds take ~10× the steps: keep the plain group and the controls
+            probes.retain(|p| p.group == "lower" && !p.log_trace);
+        }
+        let traces = trace_all(seed, &reqs, &probes, 16);
         let s = analyse(&reqs, &probes, &traces, &profile);
         println!(
             "RAW profile={} compared={} identical_requests={} violations={} inconclusive={} controls_ok={}",
@@ -703,6 +727,46 @@ fn main() {
             Err(e) => tally.inconclusive.push(format!("checked-profile tracer could not run: {}", e)),
         }
     }
+    // every run: repeat the plain group on an unoptimised build, where a branch in the source stays a branch
+    if let Ok(other) = std::env::var("VERIF_C07_UNOPT") {
+        match std::process::Command::new(&other).args(["raw", &seed.to_string(), "unoptimised", "light"]).output() {
+            Ok(o) => {
+                let out = String::from_utf8_lossy(&o.stdout).to_string();
+                extra.put("unoptimised_profile", J::s(out.lines().find(|l| l.starts_with("RAW ")).unwrap_or("").to_string()));
+                let mut seen = false;
+                for l in out.lines() {
+                    if let Some(d) = l.strip_prefix("RAWVIOLATION ") {
+                        seen = true;
+                        tally.violate(Violation {
+                            monitor: "instruction-trace".into(),
+                            signature: "instruction-trace|unoptimised".into(),
+                            detail: d.to_string(),
+                            case: None,
+                            extra: J::Null,
+                            known: None,
+                        });
+                    } else if let Some(d) = l.strip_prefix("RAWINCONCLUSIVE ") {
+                        seen = true;
+                        tally.inconclusive.push(format!("unoptimised build: {}", d));
+                    } else if l.starts_with("RAW ") {
+                        seen = true;
+                        if l.contains("violations=0") && l.contains("controls_ok=true") {
+                            tally.count("unoptimised_profile_subset_identical");
+                        }
+                        if let Some(n) = l.split_whitespace().find_map(|w| w.strip_prefix("compared=")).and_then(|n| n.parse::<u64>().ok()) {
+                            tally.add("unoptimised_profile_traces_compared", n);
+                        }
+                    }
+                }
+                if !seen {
+                    tally.inconclusive.push(format!("unoptimised-profile tracer produced no result (status {:?})", o.status.code()));
+                }
+            }
+            Err(e) => tally.inconclusive.push(format!("unoptimised-profile tracer could not run: {}", e)),
+        }
+        ctx.gate("plain probe group repeated on the unoptimised build profile, all refusal traces identical", tally.get("unoptimised_profile_subset_identical"), 1);
+        ctx.gate("wrong-signature traces compared on the unoptimised build", tally.get("unoptimised_profile_traces_compared"), 8);
+    }
     ctx.gate("requests whose refusal traces were all identical", tally.get("requests_with_identical_refusal_traces"), nreq as u64);
     ctx.gate("wrong-signature traces compared", tally.get("wrong_signature_traces_compared"), (nreq * (positions.len() + 1 + multi)) as u64);
     ctx.gate("wrong-signature traces compared in upper case / with one upper-case letter", tally.get("wrong_signature_traces_compared_in_other_hex_case"), (nreq * positions.len() * 2) as u64);
@@ -715,10 +779,11 @@ fn main() {
     ctx.exhaustive("first-difference positions 0–63 for each traced request", tier == Tier::Thorough);
     let rep = Report {
         level: "exploration",
-        rule: "Instruction-trace monitor: the process warms all lazily initialised globals, then forks one child per probe; the child builds its request, raises SIGSTOP, performs the single validation call, raises SIGSTOP again; the parent single-steps the child between the two stops with ptrace and folds every instruction address into (step count, 64-bit FNV hash). All children are forks of one warmed single-threaded parent (same layout, allocator state, hash seeds); probes differ only in the signature text: first wrong character at each probed position (digit for digit, letter for letter), all characters wrong, random multi-position variants; every position probe is repeated with a trace-level logger installed (log-macro arguments are then evaluated), with the whole signature in upper case, and with one far-away letter in upper case. Verdict: identical (count, hash) for all refusals of one request within each of these four groups. Controls: same probe twice ⇒ same trace; a harness-local `==` over the same inputs must show position-dependent lengths (proves the byte-wise memcmp/bcmp override is effective). Distinct = distinct (request, wrong signature) traces compared.".into(),
+        rule: "Instruction-trace monitor: the process warms all lazily initialised globals, then forks one child per probe; the child builds its request, raises SIGSTOP, performs the single validation call, raises SIGSTOP again; the parent single-steps the child between the two stops with ptrace and folds every instruction address into (step count, 64-bit FNV hash). All children are forks of one warmed single-threaded parent (same layout, allocator state, hash seeds); probes differ only in the signature text: first wrong character at each probed position (digit for digit, letter for letter), all characters wrong, random multi-position variants; every position probe is repeated with a trace-level logger installed (log-macro arguments are then evaluated), with the whole signature in upper case, and with one far-away letter in upper case. Verdict: identical (count, hash) for all refusals of one request within each of these four groups. The plain group (5 positions, all-wrong, 3 multi-position variants) is traced again on an unoptimised build of crate and harness (profile `unopt`, opt-level 0; ≈ 770 000 steps per trace), where a data-dependent branch in the source cannot be turned into branch-free code by the optimiser; thorough also repeats a subset on the `checked` profile. Controls: same probe twice ⇒ same trace; a harness-local `==` over the same inputs must show position-dependent lengths (proves the byte-wise memcmp/bcmp override is effective). Distinct = distinct (request, wrong signature) traces compared.".into(),
         assumptions: vec![
             "decides the property as stated (instruction sequence), not micro-architectural timing".into(),
             "the success path (correct signature) is traced but excluded from the comparison".into(),
+            "three build profiles of this toolchain are traced (release, unoptimised; thorough: checked); other compilers or flags may generate different code".into(),
         ],
         extra,
     };
